@@ -5560,12 +5560,15 @@ def symlink_to_bytes(symlink_target):
      The UDF data corresponding to the symlink.
     """
     symlink_data = bytearray()
-    for comp in symlink_target.split('/'):
+    for index, comp in enumerate(symlink_target.split('/')):
         if comp == '':
-            # If comp is empty, then we know this is the leading slash
-            # and we should make an absolute entry (double slashes and
-            # such are weeded out by the earlier utils.normpath).
-            symlink_data.extend(b'\x02\x00\x00\x00')
+            # If comp is empty and it is the first one, then we know this is
+            # the leading slash and we should make an absolute entry.  The
+            # target is not normalized by the caller, so any other empty
+            # piece comes from a double or a trailing slash; it names nothing
+            # and must not send the reader back to the root.
+            if index == 0:
+                symlink_data.extend(b'\x02\x00\x00\x00')
         elif comp == '.':
             symlink_data.extend(b'\x04\x00\x00\x00')
         elif comp == '..':
